@@ -19,8 +19,11 @@ PY
   python3 /verif/tools/regen_parser.py $S >/dev/null 2>&1
   suite=$(cd $S && /venv/bin/python -m pytest -q -p no:cacheprovider 2>&1 | tail -1)
   alarms=""
+  first=1
   for id in $ids; do
-    out=$(VERIF_REPO=$S timeout 1800 ./check $id 2>&1); code=$?
+    # the dependency layer is the same in every check: run it with the first check only
+    if [ $first = 1 ]; then out=$(VERIF_REPO=$S timeout 1800 ./check $id 2>&1); code=$?; first=0
+    else out=$(VERIF_REPO=$S VERIF_NO_DEPENDENCY_LAYER=1 timeout 1800 ./check $id 2>&1); code=$?; fi
     if [ $code -ne 0 ]; then alarms="$alarms $id(exit=$code: $(echo "$out" | grep -E '^(VIOLATION|UNDECIDED|CHECKER)' | head -1 | cut -c1-200))"; fi
     bo=$(echo "$out" | grep -c '^BOUNDED-ONLY'); [ $bo -gt 0 ] && alarms="$alarms [$id bounded-only=$bo]"
   done
